@@ -2,6 +2,7 @@ package mon
 
 import (
 	"fmt"
+	"strings"
 
 	stackage "github.com/JesseCoretta/go-stackage"
 	"verifharness/core"
@@ -116,6 +117,12 @@ func c07Run(c *core.Ctx, idx int) {
 			n.NoNest = true // set after the pushes: must not affect elements already present
 		}
 	})
+	if sp := core.NewRng(core.Mix(uint64(c.Seed)+0x5b1ce, uint64(idx))); sp.Chance(1, 6) {
+		// (own PRNG stream, so that the rest of the case is what it was without this step)
+		if did := Spice(sp, tree, sp.Chance(1, 2), sp.Chance(1, 2), sp.Chance(1, 2)); did != "" {
+			c.Count("trees.spiced." + strings.TrimSpace(strings.ReplaceAll(strings.TrimSpace(did), " ", "+")))
+		}
+	}
 	root := tree.BuildStack()
 	depth := tree.Depth()
 	lo, hi := -1, c07Gen.MaxWidth+1
